@@ -7,6 +7,16 @@ Definition search_factor : Z := 4.
 Definition search_half_div : Z := 2.
 (* path.go Walk: 1 iff a final filepath.SkipDir is converted into nil (as path/filepath.Walk does) *)
 Definition walk_skipdir_to_nil : Z := 1.
+(* ioutil.go nextRandom: r = r*MUL + ADD (uint32) *)
+Definition temp_lcg_mul : Z := 1664525.
+(* ioutil.go nextRandom: r = r*MUL + ADD (uint32) *)
+Definition temp_lcg_add : Z := 1013904223.
+(* ioutil.go nextRandom: strconv.Itoa(int(MOD + r%MOD))[1:] *)
+Definition temp_mod : Z := 1000000000.
+(* ioutil.go TempFile/TempDir: for i := 0; i < N; i++ *)
+Definition temp_attempts : Z := 10000.
+(* ioutil.go TempFile/TempDir: reseed when nconflict > K *)
+Definition temp_reseed_after : Z := 10.
 (* sftpfs/sftp.go MkdirAll: 1 iff the fast path returns an error for an existing non-directory *)
 Definition sftp_mkdirall_enotdir : Z := 1.
 (* sftpfs/sftp.go OpenFile: 1 iff the returned File carries the client *)
